@@ -34,6 +34,18 @@ def body(run):
         # the source's invalid pixels are stored as NaN or as a fixed finite nodata value (which, unlike the data, does not scale)
         skw = [dict(encoding='nan'), dict(encoding='nodata', nodata=-9999.0), dict(encoding='nan'), dict(encoding='nodata', nodata=-1.0)][k % 4]
         pair = fz.make_pair(run.work, g, rng, smask=sm, tag='b', src_kw=skw)
+        if k % 6 == 2:
+            # small radiometric units AND a low-texture area (open water in reflectance units): the base pair itself is 2^-12 of the usual
+            # data, with a patch where neighbouring values differ by one unit only - whatever absolute tolerance a fit compares a variance or a
+            # denominator with, this patch is below it and its scaled copy is not
+            s2, r2 = pair['src'].copy(), pair['ref'].copy()
+            hs, ws = g.src_shape
+            yy, xx = np.mgrid[0:hs, 0:ws]
+            patch = (yy >= hs // 4) & (yy < hs // 4 + max(6, hs // 3)) & (xx >= ws // 4) & (xx < ws // 4 + max(6, ws // 3))
+            s2[:, patch] = (100 + (yy + xx) % 2)[patch]
+            yr, xr = np.mgrid[0:g.ref_shape[0], 0:g.ref_shape[1]]
+            r2[:] = np.where(((yr + 2 * xr) % 3 == 0)[None], r2, 120 + ((yr + xr) % 2)[None])      # (mostly flat reference with sparse texture)
+            pair = fz.make_pair(run.work, g, rng, src=s2 * np.float32(2.0 ** -12), ref=r2 * np.float32(2.0 ** -12), smask=sm, tag='b', src_kw=skw)
         ups = rng.choice(['cubic_spline', 'bilinear', 'nearest'])
         try:
             mbm = fz.block_mem_for(pair['src_fn'], pair['ref_fn'], proc, rng.choice([1, 2, 4, 9]), 1.1)
